@@ -602,7 +602,7 @@ inst!(avx2_three_rraw, [props=C02 xprops=C05+C14 tier=thorough cfg=x86std t=1800
 inst!(sse2_one_count, [props=C07+C05 xprops=C14 tier=quick cfg=x86std t=1800 role=sse2-count uw=count_raw.0:2;count_raw.1:4;byte_by_byte:17;oracle::count:36], 3,
     x86::count::<49>(0, 0, 34, 16));
 #[cfg(any(vcfg_x86std, vcfg_x86none, vcfg_x86alloc, vcfg_x86avx2, vcfg_x86rel))]
-inst!(avx2_one_count_28_36, [props=C07 xprops=C05+C14 tier=quick cfg=x86std t=1800 role=avx2-count uw=count_raw.0:2;count_raw.1:3;byte_by_byte:33;oracle::count:38], 3,
+inst!(avx2_one_count_28_36, [props=C07 xprops=C05+C14 tier=thorough cfg=x86std t=1800 role=avx2-count uw=count_raw.0:2;count_raw.1:3;byte_by_byte:33;oracle::count:38], 3,
     x86::count::<67>(1, 28, 36, 32));
 #[cfg(any(vcfg_x86std, vcfg_x86none, vcfg_x86alloc, vcfg_x86avx2, vcfg_x86rel))]
 inst!(sse2_one_count_len80, [props=C07 xprops=C05+C14 tier=thorough cfg=x86std t=5400 role=sse2-count-long uw=count_raw.0:3;count_raw.1:5;byte_by_byte:17;oracle::count:82], 3,
@@ -610,3 +610,21 @@ inst!(sse2_one_count_len80, [props=C07 xprops=C05+C14 tier=thorough cfg=x86std t
 #[cfg(any(vcfg_x86std, vcfg_x86none, vcfg_x86alloc, vcfg_x86avx2, vcfg_x86rel))]
 inst!(avx2_one_count_len160, [props=C07 xprops=C05+C14 tier=thorough cfg=x86std t=7200 role=avx2-count-long uw=count_raw.0:3;count_raw.1:5;byte_by_byte:33;oracle::count:162], 3,
     x86::count_fixed::<160, 191>(1, 32));
+
+// 2 lanes at long lengths: LOOP_SIZE is 8 bytes, so 80 bytes are ten unrolled
+// iterations -- this is where code gated on "many loop iterations" (e.g. a
+// skim pre-loop for len >= 8 * LOOP_SIZE) becomes reachable cheaply.
+inst!(g2_one_find_80, [props=C01 xprops=C05+C14 tier=quick cfg=x86std t=1500 role=generic-2lane-find-long uw=find_raw.0:12;find_raw.1:4], 4,
+    generic::find::<2, 81>(1, false, 80));
+inst!(g2_one_rfind_80, [props=C02 xprops=C05+C14 tier=quick cfg=x86std t=1500 role=generic-2lane-rfind-long uw=find_raw.0:12;find_raw.1:4], 4,
+    generic::find::<2, 81>(1, true, 80));
+inst!(g2_three_rfind_40, [props=C02 xprops=C05+C14 tier=thorough cfg=x86std t=1500 role=generic-2lane-rfind-long uw=find_raw.0:12;find_raw.1:4], 4,
+    generic::find::<2, 41>(3, true, 40));
+inst!(g2_one_count_80, [props=C07 xprops=C05+C14 tier=thorough cfg=x86std t=3600 role=generic-2lane-count-long uw=count_raw.0:12;count_raw.1:4;byte_by_byte:4;oracle::count:82], 4,
+    generic::count::<2, 81>(80));
+#[cfg(any(vcfg_x86std, vcfg_x86none, vcfg_x86alloc, vcfg_x86avx2, vcfg_x86rel))]
+inst!(avx2_two_raw, [props=C01+C14 xprops=C05 tier=quick cfg=x86std t=1800 role=avx2-raw uw=find_raw.0:2;find_raw.1:4;byte_by_byte:17], 3,
+    x86::raw::<40>(1, 2, false));
+#[cfg(any(vcfg_x86std, vcfg_x86none, vcfg_x86alloc, vcfg_x86avx2, vcfg_x86rel))]
+inst!(avx2_two_rraw, [props=C02 xprops=C05+C14 tier=thorough cfg=x86std t=1800 role=avx2-raw uw=find_raw.0:2;find_raw.1:4;byte_by_byte:17], 3,
+    x86::raw::<40>(1, 2, true));
